@@ -1,5 +1,6 @@
 use crate::fw::{Ctx, Report, Verdict};
 
+pub mod c12;
 pub mod c14;
 pub mod c15;
 pub mod c16;
@@ -22,6 +23,8 @@ pub fn lookup(id: &str) -> Option<Entry> {
         };
     }
     match id {
+        "C12" => e!(c12),
+        "C13" => e!(c12),
         "C14" => e!(c14),
         "C15" => e!(c15),
         "C16" => e!(c16),
